@@ -23,6 +23,15 @@ func VerifDir() string {
 	return "/verif"
 }
 
+// OutDir is where evidence and replay files go: /verif, unless VERIF_OUT names another directory (used when a
+// seeded change is evaluated against a scratch tree, so that the committed evidence of /repo is not overwritten).
+func OutDir() string {
+	if d := os.Getenv("VERIF_OUT"); d != "" {
+		return d
+	}
+	return VerifDir()
+}
+
 type Violation struct {
 	Property string `json:"property"`
 	Cell     string `json:"cell"`
@@ -244,6 +253,12 @@ func (r *Run) Finish() int {
 		for _, f := range findings {
 			if f.Status == "open" && f.Matches(v) {
 				fired[f.ID]++
+				if dump := os.Getenv("VERIF_DUMP_KNOWN"); dump != "" { // triage aid: every absorbed violation, one per line
+					if fh, err := os.OpenFile(dump, os.O_APPEND|os.O_CREATE|os.O_WRONLY, 0o644); err == nil {
+						fmt.Fprintf(fh, "%s\t%s\t%s\t%s\n", f.ID, v.Cell, v.Symptom, oneLine(v.Detail))
+						fh.Close()
+					}
+				}
 				if len(firedCells[f.ID]) < 5 {
 					firedCells[f.ID] = append(firedCells[f.ID], v.Cell+" :: "+v.Symptom)
 				}
@@ -256,7 +271,7 @@ func (r *Run) Finish() int {
 		}
 	}
 	// replay files for unknown violations
-	rdir := filepath.Join(VerifDir(), "replays", r.Property)
+	rdir := filepath.Join(OutDir(), "replays", r.Property)
 	for _, v := range unknown {
 		h := sha256.Sum256([]byte(v.Cell + "|" + v.Symptom))
 		os.MkdirAll(rdir, 0o755)
@@ -313,7 +328,7 @@ func (r *Run) Finish() int {
 	if ev["assumptions"] == nil || len(r.Assumptions) == 0 {
 		ev["assumptions"] = []string{}
 	}
-	edir := filepath.Join(VerifDir(), "evidence")
+	edir := filepath.Join(OutDir(), "evidence")
 	os.MkdirAll(edir, 0o755)
 	b, _ := json.MarshalIndent(ev, "", " ")
 	if err := os.WriteFile(filepath.Join(edir, r.Property+".json"), append(b, '\n'), 0o644); err != nil {
